@@ -245,7 +245,8 @@ fn main() {
                 let res = parser.parse(&text);
                 let errors: Vec<String> = res.report().errors().map(|e| e.to_string()).collect();
                 let warnings: Vec<String> = res.report().warnings().map(|e| e.to_string()).collect();
-                json!({"valid": res.is_valid(), "has_output": res.has_output(), "errors": errors, "warnings": warnings})
+                let diags: Vec<serde_json::Value> = res.report().iter().map(|d| json!({"message": d.to_string(), "stage": format!("{:?}", d.stage), "severity": format!("{:?}", d.severity)})).collect();
+                json!({"valid": res.is_valid(), "has_output": res.has_output(), "errors": errors, "warnings": warnings, "diags": diags})
             });
             match r { Ok(v) => println!("{}", v), Err(_) => println!("{}", json!({"panic": true})) }
         }
@@ -543,6 +544,92 @@ fn main() {
                 Ok(m) => println!("{}", json!({"minutes": m})),
                 Err(_) => println!("{}", json!({"panic": true})),
             }
+        }
+        "structure" => {
+            // structure <all|no-advanced-units|none> <text>: parse through the public API and check the referential structure of the result
+            use cooklang::{Extensions, Modifiers};
+            use cooklang::model::IngredientReferenceTarget;
+            use cooklang::quantity::QuantityValue as _;
+            let ext = match args[2].as_str() { "all" => Extensions::all(), "none" => Extensions::empty(), _ => Extensions::all() - Extensions::ADVANCED_UNITS };
+            let text = args[3].replace("\\n", "\n");
+            let parser = cooklang::CooklangParser::new(ext, Converter::bundled());
+            let r = std::panic::catch_unwind(|| {
+                let mut problems: Vec<String> = vec![];
+                let res = parser.parse(&text);
+                let report = res.report().clone();
+                // parser-level facts about each ingredient quantity, in order: (text value?, scaling lock?)
+                let mut evq: Vec<Option<(bool, bool)>> = vec![];
+                for ev in cooklang::parser::PullParser::new(&text, ext) {
+                    if let cooklang::parser::Event::Ingredient(i) = ev {
+                        evq.push(i.quantity.as_ref().map(|q| (q.value.value.is_text(), q.value.scaling_lock.is_some())));
+                    }
+                }
+                for d in report.iter() {
+                    if d.to_string().contains("Conflicting component reference quantities") {
+                        if d.severity != cooklang::error::Severity::Error { problems.push("the conflicting-quantities diagnostic is not an error".into()); }
+                        match (d.labels.get(0), d.labels.get(1)) {
+                            (Some(a), Some(b)) => if a.0.start() < b.0.end() { problems.push(format!("conflicting-quantities error: primary label at {}..{} does not sit on the reference (definition at {}..{})", a.0.start(), a.0.end(), b.0.start(), b.0.end())); },
+                            _ => problems.push("conflicting-quantities error without its two labels".into()),
+                        }
+                    }
+                }
+                let Some(recipe) = res.output() else { return json!({"problems": problems, "no_output": true}) };
+                let lower = |s: &str| s.to_lowercase();
+                for (i, igr) in recipe.ingredients.iter().enumerate() {
+                    let is_ref_mod = igr.modifiers().contains(Modifiers::REF);
+                    match igr.relation.references_to() {
+                        Some((k, IngredientReferenceTarget::Ingredient)) => {
+                            if !is_ref_mod { problems.push(format!("ingredient {i} ({}) is a reference without the reference modifier", igr.name)); }
+                            match recipe.ingredients.get(k) {
+                                Some(def) if k < i => {
+                                    if !def.relation.is_definition() { problems.push(format!("ingredient {i} references {k}, which is itself a reference")); }
+                                    if !def.relation.referenced_from().contains(&i) { problems.push(format!("ingredient {i} ({}) references {k} but is missing from its back links {:?}", igr.name, def.relation.referenced_from())); }
+                                    if lower(&def.name) != lower(&igr.name) { problems.push(format!("ingredient {i} '{}' references '{}': names differ", igr.name, def.name)); }
+                                }
+                                _ => problems.push(format!("ingredient {i} references {k}: not an earlier ingredient")),
+                            }
+                        }
+                        Some(_) => {}
+                        None => { if is_ref_mod && igr.relation.is_definition() && res.is_valid() { problems.push(format!("ingredient {i} ({}) carries the reference modifier but is a definition", igr.name)); } }
+                    }
+                    for &j in igr.relation.referenced_from() {
+                        match recipe.ingredients.get(j) {
+                            Some(r) if matches!(r.relation.references_to(), Some((k, IngredientReferenceTarget::Ingredient)) if k == i) => {}
+                            _ => problems.push(format!("ingredient {i} lists {j} as a reference, but {j} does not point back")),
+                        }
+                    }
+                    // scaling kind: Linear unless text or locked (as written on THIS component)
+                    if let (Some(q), Some(Some((is_text, locked)))) = (igr.quantity.as_ref(), evq.get(i)) {
+                        let linear = matches!(q.value(), cooklang::quantity::ScalableValue::Linear(_));
+                        if linear != (!is_text && !locked) { problems.push(format!("ingredient {i} ({}): quantity stored as {} but written {}{}", igr.name, if linear { "linear" } else { "fixed" }, if *is_text { "as text" } else { "as a number" }, if *locked { " with a lock" } else { " without a lock" })); }
+                    }
+                }
+                for (i, cw) in recipe.cookware.iter().enumerate() {
+                    let is_ref_mod = cw.modifiers().contains(Modifiers::REF);
+                    match cw.relation.references_to() {
+                        Some(k) => {
+                            if !is_ref_mod { problems.push(format!("cookware {i} ({}) is a reference without the reference modifier", cw.name)); }
+                            match recipe.cookware.get(k) {
+                                Some(def) if k < i => {
+                                    if !def.relation.is_definition() { problems.push(format!("cookware {i} references {k}, which is itself a reference")); }
+                                    if !def.relation.referenced_from().contains(&i) { problems.push(format!("cookware {i} ({}) references {k} but is missing from its back links {:?}", cw.name, def.relation.referenced_from())); }
+                                    if lower(&def.name) != lower(&cw.name) { problems.push(format!("cookware {i} '{}' references '{}': names differ", cw.name, def.name)); }
+                                }
+                                _ => problems.push(format!("cookware {i} references {k}: not an earlier item")),
+                            }
+                        }
+                        None => { if is_ref_mod && res.is_valid() { problems.push(format!("cookware {i} ({}) carries the reference modifier but is a definition", cw.name)); } }
+                    }
+                    for &j in cw.relation.referenced_from() {
+                        match recipe.cookware.get(j) { Some(r) if r.relation.references_to() == Some(i) => {}, _ => problems.push(format!("cookware {i} lists {j} as a reference, but {j} does not point back")) }
+                    }
+                }
+                for (i, t) in recipe.timers.iter().enumerate() {
+                    if t.name.is_none() && t.quantity.is_none() { problems.push(format!("timer {i} has neither a name nor a quantity")); }
+                }
+                json!({"problems": problems, "valid": res.is_valid()})
+            });
+            match r { Ok(v) => println!("{}", v), Err(_) => println!("{}", json!({"panic": true})) }
         }
         "hard_units" => {
             let r = cooklang::metadata::verif_hooks::hard_coded_units(f(&args[2]), &args[3]);
